@@ -217,7 +217,7 @@ func (a *agg) add(l line) {
 	for k, v := range l.Counters {
 		a.counters[k] += v
 	}
-	if !l.Trivial && l.Switches > 0 {
+	if !l.Trivial {
 		a.distinct[[2]uint64{l.Scen, l.Sig}] = true
 	}
 	a.scens[l.Scen] = true
@@ -624,7 +624,7 @@ func cmdCheck(args []string) int {
 		"inconclusive_runs":         inconclusive,
 		"runs_not_started_wall_cap": skipped,
 		"distinct_scenarios":        len(a.scens),
-		"distinct_measure":          "distinct (generator-tape hash, interleaving signature) pairs among non-trivial runs with at least one context switch; the interleaving signature hashes the sequence of (goroutine creation site, operation kind) at every context switch",
+		"distinct_measure":          "distinct (generator-tape hash, interleaving signature) pairs among non-trivial runs; the interleaving signature hashes the sequence of (goroutine creation site, operation kind) at every context switch",
 		"worlds":                    a.worlds,
 		"steps":                     a.steps,
 		"context_switches":          a.switches,
